@@ -35,7 +35,15 @@ def shift1d(ctx, rng, idx):
         n = int(rng.integers(90, 131)) if implicit else int(rng.integers(257, 501))
         k = int(rng.integers(1, n))
         ctx.ev("large-mesh")
-    s = gen.scenario1d(rng, bc="per", meshkinds=["uni"], ncell=n, mach_max=1.5, ratio=5.0, dkind="smooth" if implicit else None)
+    seamx = (not implicit) and n >= 3 and rng.random() < 0.1
+    if seamx:
+        # one-directional streams with one or two exceptional cells (first / last cell preferred): whole-array predicates ("every face is
+        # upwind") are true for the interior faces and false at the seam only -- a class rare enough to be sampled on purpose
+        s = gen.scenario1d(rng, bc="per", meshkinds=["uni"], ncell=n, mach_max=1.5, ratio=5.0, dkind="stream-with-exceptions",
+                           mname=str(rng.choice(["euler1d", "euler1d", "nozzle", "shallowwater"])))
+        ctx.ev("seam-exception-streams")
+    else:
+        s = gen.scenario1d(rng, bc="per", meshkinds=["uni"], ncell=n, mach_max=1.5, ratio=5.0, dkind="smooth" if implicit else None)
     spec = gen.spec_from_scn(s)
     tw = gen.Spec(spec.mname, spec.mparams, spec.faces, spec.rname, spec.flux, spec.bcL, spec.bcR, [np.roll(p, k) for p in spec.prim], section=(lambda x: 1.0 + 0 * x) if spec.mname == "nozzle" else None)
     spec.section = tw.section
